@@ -81,7 +81,8 @@ def main():
             continue
         if m.get("out_of_domain") or m.get("not_detected"):
             continue
-        checks = [c for c, r in m["checks_run"].items() if r["detected"]]
+        checks = [c for c, r in m["checks_run"].items() if r["detected"]] \
+            or [m["property"]]
         if a.add_checks:
             checks += [c for c in a.add_checks.split(",") if c not in checks]
         tasks.append((name, checks or [m["property"]], a.seed, a.workers))
